@@ -687,7 +687,10 @@ func c03Gen(runSeed uint64, tier string) *gen.Scenario {
 	if g.Chance(0.2) {
 		sc.Knobs["faults"] = int64(simstore.FaultOpenErr | simstore.FaultIterErr)
 	}
-	if g.Chance(0.15) {
+	if g.Chance(0.1) || gen.Forced("mutualusersets") {
+		// directed shape: usersets of different types assignable to each other, userset subjects hops away
+		sc.Model, sc.Tuples, sc.Requests = g.MutualUsersets()
+	} else if g.Chance(0.15) {
 		// directed shape: deep self-recursive relations over many objects, faults in half of them
 		sc.Model, sc.Tuples, sc.Requests = g.DeepRecursive()
 		if g.Chance(0.5) {
